@@ -244,6 +244,20 @@ func (c *connState) OnTraffic(gc gnet.Conn) gnet.Action {
 				c.failf("conn-read", "Read(%d bytes) with %d available returned (%d, %v), first difference from the stream at %d", n, avail, r, err, firstDiff(p[:r], exp))
 			}
 			c.consumed += r
+		case "writeto":
+			// drains everything that is buffered into a writer (the inbound ring goes back to its pool when empty)
+			if avail == 0 {
+				continue
+			}
+			c.peeks = nil
+			var sink bytes.Buffer
+			w, err := gc.WriteTo(&sink)
+			c.hist = append(c.hist, fmt.Sprintf("WriteTo(all %d)", avail))
+			exp := c.stream[c.consumed : c.consumed+avail]
+			if err != nil || int(w) != avail || !bytes.Equal(sink.Bytes(), exp) {
+				c.failf("conn-writeto", "WriteTo with %d available returned (%d, %v), first difference from the stream at %d", avail, w, err, firstDiff(sink.Bytes(), exp))
+			}
+			c.consumed += int(w)
 		case "get":
 			if len(c.held) >= 6 {
 				bsPool.Put(c.held[0])
@@ -318,7 +332,7 @@ func drawConnCase(t *rapid.T) connCase {
 		no := rapid.IntRange(3, 14).Draw(t, "ops")
 		for j := 0; j < no; j++ {
 			var o connOp
-			switch rapid.IntRange(0, 11).Draw(t, "op") {
+			switch rapid.IntRange(0, 12).Draw(t, "op") {
 			case 0, 1, 2, 3:
 				o = connOp{Kind: "peek", Num: rapid.IntRange(0, 4).Draw(t, "num"), Den: 4, Add: rapid.SampledFrom([]int{0, 0, 1, -1, 2}).Draw(t, "add")}
 			case 4, 5, 6:
@@ -327,6 +341,8 @@ func drawConnCase(t *rapid.T) connCase {
 				o = connOp{Kind: "next", Num: rapid.IntRange(1, 4).Draw(t, "num"), Den: 4, Add: rapid.SampledFrom([]int{0, -1, -100}).Draw(t, "add")}
 			case 8:
 				o = connOp{Kind: "read", Num: rapid.IntRange(1, 4).Draw(t, "num"), Den: 4, Add: rapid.SampledFrom([]int{0, -1, -100}).Draw(t, "add")}
+			case 12:
+				o = connOp{Kind: "writeto"}
 			case 9, 10:
 				o = connOp{Kind: "get", Num: rapid.SampledFrom([]int{1, 100, 300, 512, 600, 1024, 1500, 2048, 3000, 4096, 6000, 8192}).Draw(t, "size")}
 			default:
